@@ -281,6 +281,93 @@ def inline_context_managers(tree: ast.Module) -> int:
     return n
 
 
+# ---- tiny helpers around the call stack read as the statements they stand for -------------------------------------
+def inline_call_stack_helpers(tree: ast.Module) -> int:
+    """`self._push_frame(f)` / `x = self._pop_frame()`: a method whose whole body is at most four simple statements
+    (assignments and expression statements, an optional final return) and that appends to or pops self.call_stack is
+    an accounting wrapper around the push or pop.  Its calls in statement position are replaced by its statements
+    (parameters substituted, locals renamed apart), so every rule that reads pushes and pops of the call stack - and
+    the one that asks whether whatever accompanies them accompanies ALL of them - sees them where they happen."""
+    n = 0
+    for cls in [c for c in ast.walk(tree) if isinstance(c, ast.ClassDef)]:
+        helpers: Dict[str, ast.FunctionDef] = {}
+        for m in cls.body:
+            if not isinstance(m, ast.FunctionDef) or m.decorator_list or m.args.vararg or m.args.kwarg:
+                continue
+            body = [x for x in m.body if not (isinstance(x, ast.Expr) and isinstance(x.value, ast.Constant))]
+            if not body or len(body) > 4:
+                continue
+            core = body[:-1] if isinstance(body[-1], ast.Return) else body
+            if not all(isinstance(x, (ast.Assign, ast.AugAssign, ast.Expr)) for x in core):
+                continue
+            if any(isinstance(y, (ast.Yield, ast.YieldFrom, ast.Lambda)) for x in body for y in ast.walk(x)):
+                continue
+            touches = any(isinstance(y, ast.Call) and isinstance(y.func, ast.Attribute) and y.func.attr in ("append", "pop") and isinstance(y.func.value, ast.Attribute) and y.func.value.attr == "call_stack" for x in body for y in ast.walk(x))
+            if touches:
+                helpers[m.name] = m
+        if not helpers:
+            continue
+
+        def expand(call: ast.Call, target: Optional[ast.AST], line: int) -> Optional[List[ast.stmt]]:
+            fn = helpers[call.func.attr]
+            params = [a.arg for a in fn.args.args][1:]
+            if len(call.args) != len(params) or call.keywords or any(isinstance(a, ast.Starred) for a in call.args):
+                return None
+            env = dict(zip(params, call.args))
+            body = [x for x in fn.body if not (isinstance(x, ast.Expr) and isinstance(x.value, ast.Constant))]
+            own = {t.id for st in body for x in ast.walk(st) if isinstance(x, ast.Assign) for t in x.targets if isinstance(t, ast.Name)}
+            ren = {v: f"{v}__{fn.name.strip('_')}" for v in own}
+            out: List[ast.stmt] = []
+            for st in body:
+                c = _Subst(env).visit(copy.deepcopy(st))
+                for x in ast.walk(c):
+                    if isinstance(x, ast.Name) and x.id in ren:
+                        x.id = ren[x.id]
+                    if hasattr(x, "lineno"):
+                        x.lineno = line
+                        x.end_lineno = line
+                if isinstance(c, ast.Return):
+                    if target is not None and c.value is not None:
+                        a = ast.Assign(targets=[copy.deepcopy(target)], value=c.value)
+                        ast.copy_location(a, c)
+                        out.append(a)
+                    elif c.value is not None:
+                        e = ast.Expr(value=c.value)
+                        ast.copy_location(e, c)
+                        out.append(e)
+                else:
+                    out.append(c)
+            return out
+
+        class _Inline(ast.NodeTransformer):
+            def _is_helper_call(self, v):
+                return isinstance(v, ast.Call) and isinstance(v.func, ast.Attribute) and isinstance(v.func.value, ast.Name) and v.func.value.id == "self" and v.func.attr in helpers
+
+            def visit_Expr(self, node: ast.Expr):
+                nonlocal n
+                if self._is_helper_call(node.value):
+                    r = expand(node.value, None, node.lineno)
+                    if r is not None:
+                        n += 1
+                        return r
+                return node
+
+            def visit_Assign(self, node: ast.Assign):
+                nonlocal n
+                if len(node.targets) == 1 and self._is_helper_call(node.value):
+                    r = expand(node.value, node.targets[0], node.lineno)
+                    if r is not None:
+                        n += 1
+                        return r
+                return node
+
+        for m in cls.body:
+            if isinstance(m, ast.FunctionDef) and m.name not in helpers:
+                _Inline().visit(m)
+        ast.fix_missing_locations(cls)
+    return n
+
+
 class Tree:
     """All modules of the package, indexed."""
 
@@ -320,6 +407,7 @@ class Tree:
                     raise AnalysisError(f"cannot parse {rel}: {e}")
                 if os.environ.get("VERIF_NO_DESUGAR") != "1":
                     inline_context_managers(tree)
+                    inline_call_stack_helpers(tree)
                 self.modules[modrel] = Module(modrel, path, rel, src, tree)
         self.digest = h.hexdigest()
         if len(self.modules) < 10:
